@@ -196,11 +196,22 @@ type ifn func(x *ictx) []float64
 // previous regime with probability 1/2, otherwise switches to zero / moderate /
 // high. In the moderate regime values are in [0,mid], in the high regime in
 // [mid,hi]. All-zero choices give an all-zero series.
+//
+// One series in five is then made smooth from some step on: steady, or changing by a constant
+// small factor per step (a recession, a slow rise), as regulated releases, baseflow and
+// drizzle are. Which series, from where and how fast follows from the choices already made for
+// the series (a fold over them), so the choice sequence of a case is the same with and without
+// the smoothing.
 func spells(c Chooser, T int, mid, hi float64) []float64 {
 	out := make([]float64, T)
 	state := 0
+	h := uint64(T)*0x9e3779b97f4a7c15 + 0x632be59bd9b4e019
+	defer func() { smoothTail(out, h, hi) }()
 	for t := 0; t < T; t++ {
-		switch c.Choose(6) {
+		ch := c.Choose(6)
+		h = (h ^ uint64(ch+1)) * 0xff51afd7ed558ccd
+		h ^= h >> 29
+		switch ch {
 		case 0, 1, 2: // keep
 		case 3:
 			state = 0
@@ -217,6 +228,37 @@ func spells(c Chooser, T int, mid, hi float64) []float64 {
 		}
 	}
 	return out
+}
+
+var smoothFactors = []float64{1, 1, 1 - 1e-5, 1 - 1e-3, 0.98, 1 + 1e-4, 1, 0.9}
+
+func smoothTail(out []float64, h uint64, hi float64) {
+	T := len(out)
+	if T < 3 || h%5 != 0 {
+		return
+	}
+	h /= 5
+	t0 := int(h % uint64(1+T/2))
+	h /= uint64(1 + T/2)
+	f := smoothFactors[h%uint64(len(smoothFactors))]
+	v := out[t0]
+	if v == 0 {
+		for _, x := range out {
+			if x != 0 {
+				v = x
+				break
+			}
+		}
+	}
+	if v == 0 {
+		return // an all-zero series stays all-zero
+	}
+	for t := t0; t < T; t++ {
+		out[t] = v
+		if v*f <= hi {
+			v *= f
+		}
+	}
 }
 
 // positive produces a strictly positive series in [lo,hi].
